@@ -6,6 +6,10 @@ from ..deserialize import NullCell
 from bitarray import bitarray
 
 
+class HashmapLabelError(ValueError):
+    pass
+
+
 def read_arbitrary_uint(n: int, ser: bitarray) -> typing.Tuple[int, bitarray]:
     x = 0
     for i in range(n):
@@ -46,7 +50,11 @@ def deserialize_hml(ser: Slice, m: int) -> typing.Tuple[int, bitarray]:
         v = ser.load_bit()
         l = m.bit_length()
         n = ser.load_uint(l)
+        if n > m:
+            raise HashmapLabelError(f'label of {n} bits where {m} key bits remain')  # n:(#<= m), checked before the label is built
         s = bitarray(str(v) * n)
+    if n > m:
+        raise HashmapLabelError(f'label of {n} bits where {m} key bits remain')
     return n, s
 
 
